@@ -407,12 +407,18 @@ pub fn cmd_run(args: &[String]) -> i32 {
         "volatile3" => families::slots_volatile(3),
         "volatile4" => families::slots_volatile(4),
         "rename" => families::rename(true, Kind::O),
+        "rename-small" => families::rename_opts(false, Kind::O, false),
+        "rename-y" => families::rename_opts(true, Kind::O, false),
         "renameE" => families::rename(true, Kind::E),
         "shapes" => families::shapes(true),
         _ => {
             eprintln!("unknown family");
             return 2;
         }
+    };
+    let universes: Vec<Universe> = match std::env::var("PPGMC_UNIVERSE") {
+        Ok(f) => universes.into_iter().filter(|u| u.label.contains(&f)).collect(),
+        Err(_) => universes,
     };
     let t0 = Instant::now();
     let coll = Mutex::new(Collector::new());
@@ -449,6 +455,55 @@ pub fn cmd_run(args: &[String]) -> i32 {
                 spec: spec.clone(),
             };
             std::fs::write(format!("{}/{}_{}_{}.json", dir, p, clause, i), serde_json::to_string_pretty(&rf).unwrap()).ok();
+        }
+    }
+    0
+}
+
+/// debugging aid: ppgmc trace <replay file>: print the engine state after every event
+pub fn cmd_trace(args: &[String]) -> i32 {
+    use crate::explore::replay;
+    use std::rc::Rc;
+    let rf: ReplayFile = match args.first().and_then(|p| std::fs::read_to_string(p).ok()).and_then(|s| serde_json::from_str(&s).ok()) {
+        Some(x) => x,
+        None => return 2,
+    };
+    let spec = &rf.spec;
+    let mut hist = Hist::new();
+    let mut disk = Disk::new();
+    let mut steps = rf.report.chain.clone();
+    steps.push(rf.report.last.clone());
+    for (i, st) in steps.iter().enumerate() {
+        for d in &st.deleted {
+            disk.remove(d);
+        }
+        let cfg = Rc::new(make_cfg(spec, &st.graph, &st.versions, &hist, &disk, i, st.seams));
+        let refr = Rc::new(reference(&cfg));
+        println!("== evaluation {}: {}  versions {:?} deleted {:?}", i + 1, st.graph.describe(), st.versions, st.deleted);
+        println!("   hist {:?}\n   disk {:?}", hist, disk);
+        println!("   reference: uptodate {:?} exec {:?} relevant {:?}", refr.uptodate, refr.exec, refr.relevant);
+        for k in 0..=st.events.len() {
+            let (sim, term, found) = replay(&cfg, &refr, &st.events[..k], ALL);
+            if sim.dead {
+                println!("   after {:?}: engine dead", &st.events[..k].iter().map(ev_str).collect::<Vec<_>>());
+            } else {
+                let snap = sim.eng.verif_snapshot();
+                let states: Vec<String> = snap.jobs.iter().map(|j| format!("{}={:?}", j.job_id, j.state)).collect();
+                let edges: Vec<String> = snap.edges.iter().map(|e| format!("{}->{}:{:?}/{:?}", snap.jobs[e.upstream].job_id, snap.jobs[e.downstream].job_id, e.required, e.invalidated)).collect();
+                println!("   after {:?}:\n      {}\n      {}\n      ready {:?} cleanup {:?}", st.events[..k].iter().map(ev_str).collect::<Vec<_>>(), states.join(" "), edges.join(" "), snap.ready_to_run, snap.ready_for_cleanup);
+            }
+            if k == st.events.len() {
+                for f in found.iter() {
+                    println!("   VIOL {} {} {}", f.viol.prop, f.viol.clause, f.viol.msg);
+                }
+                match term {
+                    Some(t) => {
+                        hist = t.hist;
+                        disk = t.disk;
+                    }
+                    None => println!("   (not finished)"),
+                }
+            }
         }
     }
     0
